@@ -72,9 +72,8 @@ fn complete_type(
     tokens.token_before(position).and_then(|last_token| {
         use TokenType::*;
         match last_token.token_type {
-            Eq => Some(vec![snippets::array(), items::array(), items::int()]),
             RBracket => Some(vec![items::of()]),
-            Of => {
+            Eq | Of => {
                 let completions =
                     [vec![snippets::array(), items::array()], search_types(table)].concat();
                 Some(completions)
@@ -101,7 +100,7 @@ fn complete_procedure(
         if in_signature {
             match last_token.token_type {
                 TokenType::LParen | TokenType::Comma => Some(vec![items::r#ref()]),
-                TokenType::Colon => Some(search_types(table)),
+                TokenType::Colon | TokenType::Of => Some(search_types(table)),
                 _ => None,
             }
         } else {
@@ -129,7 +128,7 @@ fn complete_procedure(
             } else {
                 // in variable declarations
                 match last_token.token_type {
-                    TokenType::Colon => Some(search_types(table)),
+                    TokenType::Colon | TokenType::Of => Some(search_types(table)),
                     TokenType::Semic | TokenType::LCurly => {
                         let completions =
                             [vec![snippets::var(), items::var()], new_stmt(&lookup_table)].concat();
@@ -369,15 +368,6 @@ mod items {
     item!(proc, tokens::PROC);
     item!(var, tokens::VAR);
     item!(r#ref, tokens::REF);
-
-    /// int is a type, not a keyword
-    pub(super) fn int() -> CompletionItem {
-        CompletionItem {
-            label: "int".to_string(),
-            kind: Some(CompletionItemKind::STRUCT),
-            ..Default::default()
-        }
-    }
 }
 
 mod snippets {
